@@ -29,7 +29,6 @@ NOT_APPLICABLE = {
     'C20': '"timeout only after the time elapsed" is about the kernel clock and `double`→`timespec` floating point; outside CBMC\'s useful reach (the "ready means done" half is covered under C21/C18).',
     'C21': '`Latch::count_down` notifies iff previous value `== 1` | `Latch(2); count_down(2)` with a parked waiter | notify when `prev == n` (count reached zero) | **run**: waiter parked in `wait()` still blocked 500 ms after `count_down(2)`',
     'C22': 'check not built yet (contracts designed in DESIGN.md section 5, proof not closed in this framework yet)',
-    'C23': 'check not built yet (contracts designed in DESIGN.md section 5, proof not closed in this framework yet)',
     'C24': '`getUpdate`: load `kReady`, move, store | two consumers | claim with CAS `kReady→kUpdating` before moving | read only',
     'C25': "built on moodycamel's blocking queue and semaphore (third-party, thousands of lines); the dispenso part is a thin RAII wrapper with nothing left to specify once the queue is an axiom.",
     'C26': 'the body is a `std::function` holding nested lambdas over `shared_ptr`; the cancel/in-progress window is an interleaving property.',
@@ -261,3 +260,16 @@ CLAIMED['C34'] = dict(
          "(non-power-of-two) sizes only wrapIndex == i % kBufferSize and the modular facts are verified (a 64-bit remainder inside the R/G proof did not finish). try_push_batch at kBufferSize 2 "
          "only. The slots_ array is rendered by two tracked slots (one arbitrary, one prophesied as the slot operated on) plus an unconstrained junk slot.",
     technique="CBMC DFCC contracts, rely/guarantee via interference before each atomic macro, per-slot sequence-protocol invariant with ownership and lifetime ghosts, prophecy variable for the active slot")
+
+CLAIMED['C23'] = dict(
+    category='proof',
+    text="Every method of DistributedRWLockImpl<N> (lock, try_lock, unlock, lock_shared, try_lock_shared, unlock_shared) is verified by CBMC against the CONTRACTS of the RWLockImpl slot "
+         "methods it calls (setWriteBit, tryWriteBit, waitForReaderDrain, unlock, lock_shared, try_lock_shared, unlock_shared - each proved under rely/guarantee in C22, same spec file, and used "
+         "here by contract replacement with the one slot as frame). Each slot carries its own ghost decomposition of the lock word. Postconditions, for an arbitrary slot k < N: lock and a "
+         "successful try_lock return owning the writer bit of slot k after observing it drained - no reader and no other exclusive writer on ANY sub-lock; a failed try_lock leaves no bit and no "
+         "count on any sub-lock; unlock releases every sub-lock; the shared operations act on slot index & kMask only (always a valid slot) and leave every other slot's holdings untouched; "
+         "a reader holds its slot at a moment no writer owned it. The exclusion facts are re-asserted after every other thread was allowed to act on every slot (stability under the C22 rely).",
+    note="Same trusted base and assumptions as C22 (A-SC, R/G meta-theorem, rely of C22). N in {1,2,4} quick, up to 16 thorough; slot loops are bounded by the template constant and unwound "
+         "completely; the default N=128 is not run. Progress ('blocked lockers always proceed once conflicts are released') is NOT decided. Interference on the other slots during an operation "
+         "is covered by the stability of the slot contracts under the rely (argued) and checked for the final state.",
+    technique="CBMC DFCC contracts, modular (callee contracts from C22 by replacement), ghost decomposition per slot, arbitrary-slot postconditions, rely applied to all slots before the closing assertions")
